@@ -129,8 +129,32 @@ def atom_key(e: ast.AST) -> Tuple[str, bool]:
   return unparse(e, 0), True
 
 
+_LITERALS = (ast.List, ast.ListComp, ast.Dict, ast.DictComp, ast.Set, ast.SetComp, ast.Tuple, ast.JoinedStr, ast.GeneratorExp)
+
+
+def const_value(e: ast.AST) -> Optional[bool]:
+  """Truth value of a test that does not depend on the state: `None is None`, `<list literal> is None`, a constant."""
+  if isinstance(e, ast.Constant):
+    return bool(e.value)
+  if isinstance(e, ast.Compare) and len(e.ops) == 1 and isinstance(e.ops[0], (ast.Is, ast.IsNot)):
+    l, r = e.left, e.comparators[0]
+    def none_ness(x):
+      if isinstance(x, ast.Constant):
+        return x.value is None
+      if isinstance(x, _LITERALS):
+        return False
+      return None
+    nl, nr = none_ness(l), none_ness(r)
+    if nl is not None and nr is not None and (nl or nr):
+      same = nl and nr
+      return same if isinstance(e.ops[0], ast.Is) else not same
+  return None
+
+
 def atoms_of(e: ast.AST, acc: Optional[Set[str]] = None) -> Set[str]:
   acc = set() if acc is None else acc
+  if const_value(e) is not None and not isinstance(e, ast.Constant):
+    return acc
   if isinstance(e, ast.BoolOp):
     for v in e.values:
       atoms_of(v, acc)
@@ -161,6 +185,9 @@ def beval(e: ast.AST, val: Dict[str, bool]) -> bool:
     return e.value
   if isinstance(e, ast.Constant) and e.value is None:
     return False
+  c = const_value(e)
+  if c is not None:
+    return c
   k, pol = atom_key(e)
   return val[k] if pol else not val[k]
 
